@@ -4402,9 +4402,9 @@ def do2(m, run):
                             why = 'piece %d: the helper receives other points than the control points of that piece' % i
                         elif a.get('degree') != np_:
                             why = 'piece %d gets degree %r, expected %d' % (i, a.get('degree'), np_)
-                        elif [F(x) for x in (a.get('knotvector') or [])] != want_kv:
+                        elif [(F(x.val) if isinstance(x, Tok) and x.kind == 'PH0' and x.val is not None else (None if isinstance(x, Tok) else F(x))) for x in (a.get('knotvector') or [])] != want_kv:
                             why = 'piece %d gets the knot vector %s; a Bezier piece of degree %d on [%s, %s] has %s' % (
-                                i, [str(x) for x in (a.get('knotvector') or [])], np_, a0, b0, [str(x) for x in want_kv])
+                                i, [str(x.val) if isinstance(x, Tok) and x.kind == 'PH0' else str(x) for x in (a.get('knotvector') or [])], np_, a0, b0, [str(x) for x in want_kv])
                         elif not (isinstance(a.get('_set'), list) and a['_set'] and a['_set'][0][0][0] == ('E' if t > 0 else 'R') and a['_set'][0][0][1] == i + 1):
                             why = 'piece %d does not receive the points the helper returned for it' % i
                         if why:
